@@ -56,6 +56,9 @@ type c19 struct {
 	closeSeen   map[*ssa.Function]bool
 	undSeen     map[string]bool
 	busyTargets bool
+	aliasMemo   map[string]string
+	onceID      string
+	seamMemo    map[string]*ssa.Function
 	paramFuncs  map[*ssa.Parameter][]*ssa.Function
 	dynCallee   map[ssa.CallInstruction]*ssa.Function
 	undList     []string
@@ -88,7 +91,7 @@ func (x *c19) name(fn *ssa.Function) string { return FuncName(x.p, fn) }
 
 func checkC19(c *Ctx) {
 	r, p := c.R, c.P
-	r.Explanation = "Decides structural necessary conditions of C19 on crypto/spiffe. Constructs are resolved by role (types + dataflow), not by unexported names: the SVID field is the struct field of type *x509svid.SVID, its lock the mutex held where it is stored, the readiness channel the channel field Ready waits on, a fetcher any function returning (*x509svid.SVID, error), the rotation code everything reachable from Run; same-package callees (static calls, closures, deferred calls) are followed by summaries, helpers' contexts by their call sites; calls of function VALUES are followed when every possible target is a known package function (function literals and bound method values in temporaries, captured variables, parameters, named func adapter types, unexported func-typed fields, local literal tables); a literal handed to a helper that calls it (withLock(func(){...})) runs with the helper's locks (second lockset pass with entry locksets handed over) and its closes/fetches are counted at the helper's call of the parameter; GetX509SVID must load the served field during the call (a value captured earlier is a stale source). " +
+	r.Explanation = "Decides structural necessary conditions of C19 on crypto/spiffe. Constructs are resolved by role (types + dataflow), not by unexported names: the SVID field is the struct field of type *x509svid.SVID, its lock the mutex held where it is stored, the readiness channel the channel field Ready waits on, a fetcher any function returning (*x509svid.SVID, error), the rotation code everything reachable from Run; same-package callees (static calls, closures, deferred calls) are followed by summaries, helpers' contexts by their call sites; calls of function VALUES are followed when every possible target is a known package function (function literals and bound method values in temporaries, captured variables, parameters, named func adapter types, unexported func-typed fields, local literal tables); a literal handed to a helper that calls it (withLock(func(){...})) runs with the helper's locks (second lockset pass with entry locksets handed over) and its closes/fetches are counted at the helper's call of the parameter; GetX509SVID must load the served field during the call (a value captured earlier is a stale source); a channel field that only ever receives the value of one other channel field (a copy kept by the source) denotes that channel; invoke calls on an unexported interface with a single implementing type of the package are followed; closes inside sync.Once.Do take effect once per Once; the search for the first wait after a failed fetch leaves phase helpers through their returns into every call site, carrying the constants / flags / enums returned on that path and pruning the caller's branches with them; the file map of dir.Write is analysed as a whole (literals, loops, maps.Copy/Clone). " +
 		"(X1) no wait for readiness (receive or select on the readiness channel, directly or through a callee) happens while holding the SVID lock in a mode that conflicts with what every close of the channel needs (held at the close, or acquired on every path to it) — the GetX509SVID/Run deadlock; a select whose other cases are only context cancellation counts as a wait. " +
 		"(X2) on every path through Run on which the initial fetch was started the channel is closed exactly once (closes counted through callees and deferred calls); a return without close is only accepted before the fetch, behind the atomic compare-and-swap 'already running' guard; Ready selects on the channel and its context only. " +
 		"(X3) the SVID field is written only under the write lock and read under the lock; every value stored is result 0 of a fetcher call whose error is known nil (or the value known non-nil) at the store, followed through parameters of helpers to all their call sites; GetX509SVID returns a value loaded from the field. " +
@@ -106,7 +109,7 @@ func checkC19(c *Ctx) {
 
 	x := &c19{c: c, r: r, p: p, e: c.Locks(), pkg: p.ModPath + "/crypto/spiffe", fns: p.FuncsOfPkg("crypto/spiffe"),
 		inPkg: map[*ssa.Function]bool{}, undSeen: map[string]bool{}, instrIDs: map[ssa.Instruction]int{}, certIDs: map[ssa.Value]int{},
-		dynCallee: map[ssa.CallInstruction]*ssa.Function{}, closeSum: map[*ssa.Function]uint64{}, closeBusy: map[*ssa.Function]bool{}, closeSeen: map[*ssa.Function]bool{}}
+		dynCallee: map[ssa.CallInstruction]*ssa.Function{}, aliasMemo: map[string]string{}, seamMemo: map[string]*ssa.Function{}, closeSum: map[*ssa.Function]uint64{}, closeBusy: map[*ssa.Function]bool{}, closeSeen: map[*ssa.Function]bool{}}
 	for _, fn := range x.fns {
 		x.inPkg[fn] = true
 	}
@@ -138,6 +141,20 @@ func (x *c19) handOffCallbacks() {
 		allInstrs(fn, func(in ssa.Instruction) {
 			ci, ok := in.(ssa.CallInstruction)
 			if !ok {
+				return
+			}
+			// once.Do(func(){...}): the literal runs (if at all) right here
+			if call, isCall := in.(*ssa.Call); isCall && callIs(ci, "sync", "Once", "Do") && len(ci.Common().Args) == 2 {
+				if mc, ok := ci.Common().Args[1].(*ssa.MakeClosure); ok && len(refs(mc)) == 1 {
+					if lit, _ := mc.Fn.(*ssa.Function); lit != nil && x.inPkg[lit] {
+						ls := e0.At(call)
+						if old, ok := hand[lit]; ok {
+							hand[lit] = meetLS(old, ls)
+						} else {
+							hand[lit] = ls.clone()
+						}
+					}
+				}
 				return
 			}
 			h := x.pkgCalleeStatic(ci)
@@ -562,7 +579,7 @@ func (x *c19) chanField(v ssa.Value, depth int) (string, bool) {
 	}
 	id := chanIdent(v)
 	if strings.HasPrefix(id, "field:") {
-		return id, true
+		return x.fieldAlias(id, depth), true
 	}
 	agree := func(vals []ssa.Value) (string, bool) {
 		first := ""
@@ -633,6 +650,52 @@ func (x *c19) chanField(v ssa.Value, depth int) (string, bool) {
 		return agree(vals)
 	}
 	return "", false
+}
+
+// fieldAlias: a channel field of the package that only ever receives the value
+// of ONE other channel field (a copy kept by another struct, e.g. the source
+// handed to consumers) denotes that field's channel.
+func (x *c19) fieldAlias(id string, depth int) string {
+	if a, ok := x.aliasMemo[id]; ok {
+		return a
+	}
+	if !strings.HasPrefix(id, "field:"+x.pkg+".") || depth > 4 {
+		return id
+	}
+	x.aliasMemo[id] = id // in progress: a cycle resolves to itself
+	first, ok := "", true
+	for _, fn := range x.fns {
+		allInstrs(fn, func(in ssa.Instruction) {
+			st, isSt := in.(*ssa.Store)
+			if !isSt || !ok {
+				return
+			}
+			fa, isFA := st.Addr.(*ssa.FieldAddr)
+			if !isFA {
+				return
+			}
+			fid := fieldIDOfAddr(fa)
+			if "field:"+fid.Type+"."+fid.Field != id {
+				return
+			}
+			src, res := x.chanField(st.Val, depth+1)
+			if !res || src == id {
+				ok = false
+				return
+			}
+			if first == "" {
+				first = src
+			} else if first != src {
+				ok = false
+			}
+		})
+	}
+	out := id
+	if ok && first != "" {
+		out = first
+	}
+	x.aliasMemo[id] = out
+	return out
 }
 
 func (x *c19) isReady(v ssa.Value) bool {
@@ -889,10 +952,17 @@ func (x *c19) checkX1() {
 // ---------------------------------------------------------------- X2
 
 // abstract state of the close-count flow: c = closes so far (0,1,2+),
-// p = registered deferred closes (0,1,2+), f = the fetch has been started.
+// p = registered deferred closes (0,1,2+), f = the fetch has been started,
+// o = the sync.Once guarding the close has fired.
+const c19NStates = 36
+
 func c19St(c, p, f int) int { return c + 3*p + 9*f }
 
-func c19Un(s int) (c, p, f int) { return s % 3, (s / 3) % 3, s / 9 }
+func c19StO(c, p, f, o int) int { return c + 3*p + 9*f + 18*o }
+
+func c19Un(s int) (c, p, f int) { return s % 3, (s / 3) % 3, (s / 9) % 2 }
+
+func c19Once(s int) int { return s / 18 }
 
 func c19Sat2(n int) int {
 	if n > 2 {
@@ -901,19 +971,29 @@ func c19Sat2(n int) int {
 	return n
 }
 
-// summary bits: (dc, df) -> bit dc + 3*df
+// summary bits: (dc, df, do) -> bit dc + 3*df + 6*do; do = the closes happen
+// inside a sync.Once (they only take effect while the Once has not fired)
 func c19ApplySum(st uint64, sum uint64) uint64 {
 	var out uint64
-	for s := 0; s < 18; s++ {
+	for s := 0; s < c19NStates; s++ {
 		if st&(1<<uint(s)) == 0 {
 			continue
 		}
 		c, p, f := c19Un(s)
-		for d := 0; d < 6; d++ {
+		o := c19Once(s)
+		for d := 0; d < 12; d++ {
 			if sum&(1<<uint(d)) == 0 {
 				continue
 			}
-			out |= 1 << uint(c19St(c19Sat2(c+d%3), p, f|d/3))
+			dc, df, do := d%3, (d/3)%2, d/6
+			nc, no := c19Sat2(c+dc), o
+			if do == 1 {
+				if o == 1 {
+					nc = c
+				}
+				no = 1
+			}
+			out |= 1 << uint(c19StO(nc, p, f|df, no))
 		}
 	}
 	return out
@@ -929,6 +1009,37 @@ func (x *c19) callCloseSum(ci ssa.CallInstruction) uint64 {
 	}
 	if c19IsRequestCall(ci) || c19IsKeyGen(ci) {
 		return 1 << 3
+	}
+	// once.Do(f): f's closes take effect only the first time this Once is used
+	if callIs(ci, "sync", "Once", "Do") && len(ci.Common().Args) == 2 {
+		ts, ok := x.funcTargets(ci.Common().Args[1], nil, 0)
+		if !ok {
+			return 1 << 0 // an unresolved function value: its closes, if any, are reported as not followed
+		}
+		var sum uint64
+		for _, t := range ts {
+			sum |= x.closeSummary(t.fn)
+		}
+		if sum&^(1<<0|1<<3) == 0 {
+			return sum
+		}
+		id, _ := lockIdent(ci.Common().Args[0])
+		if x.onceID == "" {
+			x.onceID = id
+		} else if x.onceID != id || id == "" {
+			x.undecide("closes of %s are guarded by more than one sync.Once: not modelled", x.readyName)
+		}
+		var out uint64
+		for d := 0; d < 6; d++ {
+			if sum&(1<<uint(d)) != 0 {
+				if d%3 > 0 {
+					out |= 1 << uint(d+6)
+				} else {
+					out |= 1 << uint(d)
+				}
+			}
+		}
+		return out
 	}
 	// a call of a function-typed parameter whose targets are bound by the summary being computed
 	if pa, ok := ci.Common().Value.(*ssa.Parameter); ok && !ci.Common().IsInvoke() {
@@ -1006,13 +1117,13 @@ func (x *c19) closeSummary(fn *ssa.Function) uint64 {
 	ff := x.closeFlow(fn)
 	ff.AtReturns(func(ret *ssa.Return, st uint64) {
 		nret++
-		for s := 0; s < 18; s++ {
+		for s := 0; s < c19NStates; s++ {
 			if st&(1<<uint(s)) != 0 {
 				c, _, f := c19Un(s)
 				if x.fetchers[fn] {
 					f = 1
 				}
-				sum |= 1 << uint(c+3*f)
+				sum |= 1 << uint(c+3*f+6*c19Once(s))
 			}
 		}
 	})
@@ -1040,15 +1151,15 @@ func (x *c19) closeFlow(fn *ssa.Function) *FlagFlow {
 				x.undecide("%s defers several different calls that close %s / fetch: not modelled", x.name(fn), x.readyName)
 			}
 			deferSum = sum
-			return mapStates(st, func(s int) int { c, p, f := c19Un(s); return c19St(c, c19Sat2(p+1), f) })
+			return mapStates(st, func(s int) int { c, p, f := c19Un(s); return c19StO(c, c19Sat2(p+1), f, c19Once(s)) })
 		case *ssa.RunDefers:
 			var out uint64
-			for s := 0; s < 18; s++ {
+			for s := 0; s < c19NStates; s++ {
 				if st&(1<<uint(s)) == 0 {
 					continue
 				}
 				c, p, f := c19Un(s)
-				cur := uint64(1) << uint(c19St(c, 0, f))
+				cur := uint64(1) << uint(c19StO(c, 0, f, c19Once(s)))
 				for i := 0; i < p; i++ {
 					cur = c19ApplySum(cur, deferSum)
 				}
@@ -1129,7 +1240,7 @@ func (x *c19) checkX2() {
 	ff.AtReturns(func(ret *ssa.Return, st uint64) {
 		nret++
 		found, won, known := x.onceGuard(ret.Block())
-		for s := 0; s < 18; s++ {
+		for s := 0; s < c19NStates; s++ {
 			if st&(1<<uint(s)) == 0 {
 				continue
 			}
